@@ -217,6 +217,9 @@ class SDate(Sym):
     def __hash__(self):
         raise Unsupported('hash of symbolic date')
 
+    def weekday(self):
+        return (SInt(z3.simplify(_ymd2ord(_I(self.year), _I(self.month), _I(self.day)))) + 6) % 7
+
     def toordinal(self):
         return SInt(_ymd2ord(_I(self.year), _I(self.month), _I(self.day)))
 
@@ -331,6 +334,9 @@ class SDateTime(Sym):
 
     def utcoffset_minutes(self):
         return tz_minutes(self.tzinfo)
+
+    def weekday(self):
+        return (SInt(z3.simplify(_ymd2ord(_I(self.year), _I(self.month), _I(self.day)))) + 6) % 7
 
     def isoformat(self, sep='T'):
         r = _pad(self.year, 4) + '-' + _pad(self.month, 2) + '-' + _pad(self.day, 2) + sep + \
